@@ -11,7 +11,7 @@ func init() { register("C01", propC01) }
 
 // C01 — accepted transactions conserve value within one asset.
 func propC01(c *Check) {
-	c.Explain = "Decides the control-flow and dataflow shape of value conservation: (1) validateOutputs sums every output amount exactly once per iteration (accumulator phi shape), rejects non-positive output amounts per iteration, and every accepting return passes the inputAmount.Cmp(outputAmount)!=0 reject gate; (2) validateInputs adds the *stored* UTXO amount (result of store.ReadUTXOLock) exactly once per ordinary input, gates each iteration on utxo!=nil, utxo.Asset==tx.Asset and the duplicate hash:index filter, and its only early accepts are the mint/deposit returns; (3) Validate places inputAmount.Sign()<=0 reject between validateInputs and validateOutputs and passes validateInputs' amount result to validateOutputs; (4) validateMint/validateDeposit gate len(Inputs)==1; (5) Integer.Add/Sub keep their sign/underflow panics."
+	c.Explain = "Decides the control-flow and dataflow shape of value conservation: (1) validateOutputs sums every output amount exactly once per iteration (accumulator phi shape), rejects non-positive output amounts per iteration, and every accepting return passes the inputAmount.Cmp(outputAmount)!=0 reject gate; (2) validateInputs adds the *stored* UTXO amount (result of store.ReadUTXOLock) exactly once per ordinary input, gates each iteration on utxo!=nil, utxo.Asset==tx.Asset and the duplicate hash:index filter, and its only early accepts are the mint/deposit returns; (3) Validate places inputAmount.Sign()<=0 reject between validateInputs and validateOutputs and passes validateInputs' amount result to validateOutputs; (4) validateMint/validateDeposit gate len(Inputs)==1; (5) Integer.Add/Sub keep their sign/underflow panics. (6) TransactionType scans every input: an iteration completes only when the input carries no mint/deposit/genesis record, the record-present edge reaches only returns of the matching type constant, and no return precedes the scan (so the single-input gates of validateMint/validateDeposit cover every transaction for which validateInputs takes an early amount-from-input return)."
 	c.NotCov = "big.Int arithmetic itself; positivity of amounts already stored in the ledger (history); 'exactly one asset' is decided as 'every summed input carries tx.Asset'."
 	c.Floor(20)
 	intSign := func(x VM) VM { return Call("(common.Integer).Sign", x) }
